@@ -54,7 +54,9 @@ ASSUMPTIONS = [
 
 ENCODINGS = ["utf-8", "utf-8", "utf-8", "latin-1", "utf-16"]
 COMMENT_POOL_ASCII = ["", " soma", "x", " CREATED BY tool v1.2", "\tindented", " a # b", " 1 1 0 0 0 1 -1",
-                      " scale 1.0 1.0 1.0", "# double"]
+                      " scale 1.0 1.0 1.0", "# double", " source: /data/n1.swc", "source: x", " SCALE 0.5 0.5 2.0",
+                      " ID,Type,X,Y,Z,R,PID"]
+JUNK_LINES = ["\x1a", "EOF", "end", "*", "\x00", "@", "...", "<<<<<<< HEAD", "1 1 0 0 0 1", "\x1a\x1a", "\xa0?"]
 COMMENT_POOL_UNI = [" neurone né à Zürich", " 神经元 形态", " µm ± 0.5", " ½ ¼ é"]
 COMMENT_POOL_LATIN = [" né à Zürich", " µm ± 0.5", " ½ ¼ é"]
 BAD_TOKENS = ["abc", "x", "1x", "--", "?", "1;2", "NaN%", "soma", "1..2", "e", "+-1", "1,5", "2,0", "0,", ",", "3,25", "1:2", "1/2"]
@@ -239,7 +241,7 @@ def apply_line_faults(rng: Prng, lines: list[str], applied: list[str]) -> None:
         if rng.chance(0.3):
             i = rng.choice([idx[0], idx[-1]])
         kind = rng.weighted([("badtoken", 4), ("dropfields", 3), ("dupline", 1), ("delline", 1),
-                             ("swaplines", 1), ("gluelines", 1)])
+                             ("swaplines", 1), ("gluelines", 1), ("junkline", 2)])
         line = lines[i]
         body = line.rstrip("\r\n")
         eol = line[len(body):]
@@ -251,6 +253,9 @@ def apply_line_faults(rng: Prng, lines: list[str], applied: list[str]) -> None:
         elif kind == "dropfields":
             keep = rng.randint(1, 6)
             lines[i] = " ".join(toks[:keep]) + eol
+        elif kind == "junkline":
+            # a whole line that is neither data, comment nor blank (an end-of-file marker, a merge-conflict marker)
+            lines.insert(i + (1 if eol else 0), rng.choice(JUNK_LINES) + (eol or "\n"))
         elif kind == "dupline":
             lines.insert(i, line if eol else line + "\n")
         elif kind == "delline":
